@@ -63,12 +63,12 @@ StopRuleGuards(ev) == <<
    <<"StopCheck: best_model is the model of the best monitored loss (last model for EpochStop)", ev.best = ExpBest(ev)>> >>
 StopCheckGuards(ev) ==
   CASE Focus = "stop"  -> <<<<"StopCheck: epoch counter", ev.epoch = epoch /\ phase = "check">>>> \o StopRuleGuards(ev)
-    [] Focus = "batch" -> StopLoopGuards(ev)
+    [] Focus \in {"batch", "bank"} -> StopLoopGuards(ev)
     [] OTHER           -> StopLoopGuards(ev) \o StopRuleGuards(ev)
 StopCheck(ev) ==
   /\ AllTrue(StopCheckGuards(ev))
   /\ best' = IF cfg.kind = "patience" /\ Improved(ev) THEN Mon(ev) ELSE best
-  /\ bestModel' = IF Focus = "batch" THEN ev.best ELSE ExpBest(ev)
+  /\ bestModel' = IF Focus \in {"batch", "bank"} THEN ev.best ELSE ExpBest(ev)
   /\ since' = IF cfg.kind = "patience" THEN NewSince(ev) ELSE 0
   /\ stopped' = ev.ret
   /\ hist' = IF MonNone(ev) THEN hist ELSE Append(hist, Mon(ev))
@@ -96,18 +96,19 @@ BatchGuards(ev, L, B, keyed) == <<
         keyed \/ \A o \in Range(ev.obs) : \A i \in 1..Len(o.idx) : o.idx[i] = (o.batch - 1) * B + (i - 1)>>,
    <<"Batches: the device axis only reshapes, never reorders (same key, one device, gives the same order)",
         ("ref" \in DOMAIN ev) => \A o \in Range(ev.obs), r \in Range(ev.ref) : r.batch = o.batch => r.idx = o.idx>> >>
+BatchFocus == Focus \in {"all", "batch"}
 MakeBatchesGuards(ev) == <<<<"MakeBatches: the loop is about to start an epoch", phase = "batching">>>>
-                         \o BatchGuards(ev, cfg.L, cfg.B, cfg.keyed)
+                         \o (IF BatchFocus THEN BatchGuards(ev, cfg.L, cfg.B, cfg.keyed) ELSE <<>>)
 MakeBatches(ev) ==
   /\ AllTrue(MakeBatchesGuards(ev))
-  /\ batches' = [b \in 1..NB(cfg) |-> BatchOf(ev, b)]
+  /\ batches' = IF BatchFocus THEN [b \in 1..NB(cfg) |-> BatchOf(ev, b)] ELSE <<>>
   /\ step' = 0
   /\ phase' = IF NB(cfg) = 0 THEN (IF cfg.hasval THEN "validate" ELSE "check") ELSE "stepping"
   /\ epoch' = IF NB(cfg) = 0 THEN epoch + 1 ELSE epoch
   /\ UNCHANGED <<cfg, best, bestModel, since, stopped, version, bank, hist>>
 
 ValBatchesGuards(ev) == <<<<"ValBatches: the loop is in its validation pass", phase = "validate">>>>
-                        \o BatchGuards(ev, cfg.LV, cfg.B, cfg.keyed)
+                        \o (IF BatchFocus THEN BatchGuards(ev, cfg.LV, cfg.B, cfg.keyed) ELSE <<>>)
 ValBatches(ev) ==
   /\ AllTrue(ValBatchesGuards(ev))
   /\ phase' = "check"
@@ -115,14 +116,16 @@ ValBatches(ev) ==
 
 (* ---------------- TrainStep --------------------------------------------------------------- *)
 (* ev : [x : Seq(Seq(Nat)) (per input type), y : Seq(Seq(Nat)) (per target type), vin, vout, bank] *)
-TrainStepGuards(ev) == <<
-   <<"TrainStep: the loop is inside an epoch", phase = "stepping" /\ step < NB(cfg)>>,
-   <<"TrainStep: the inputs are the next batch, for every tensor type",
-        phase = "stepping" /\ step < NB(cfg) => \A i \in 1..Len(ev.x) : ev.x[i] = batches[step + 1]>>,
-   <<"TrainStep: targets are aligned with inputs (same indices, same order, every type)",
-        phase = "stepping" /\ step < NB(cfg) => \A i \in 1..Len(ev.y) : ev.y[i] = batches[step + 1]>>,
-   <<"TrainStep: exactly one optimiser step on the current model", ev.vin = version /\ ev.vout = version + 1>>,
-   <<"TrainStep: the invariant filter bank changes at most by a common rescaling", ev.bank \in {"same", "scaled"}>> >>
+TrainStepGuards(ev) ==
+  <<<<"TrainStep: the loop is inside an epoch", phase = "stepping" /\ step < NB(cfg)>>>>
+  \o (IF BatchFocus THEN <<
+        <<"TrainStep: the inputs are the next batch, for every tensor type",
+             phase = "stepping" /\ step < NB(cfg) => \A i \in 1..Len(ev.x) : ev.x[i] = batches[step + 1]>>,
+        <<"TrainStep: targets are aligned with inputs (same indices, same order, every type)",
+             phase = "stepping" /\ step < NB(cfg) => \A i \in 1..Len(ev.y) : ev.y[i] = batches[step + 1]>> >> ELSE <<>>)
+  \o <<<<"TrainStep: exactly one optimiser step on the current model", ev.vin = version /\ ev.vout = version + 1>>>>
+  \o (IF Focus \in {"all", "bank"} THEN
+        <<<<"TrainStep: the invariant filter bank changes at most by a common rescaling", ev.bank \in {"same", "scaled"}>>>> ELSE <<>>)
 TrainStep(ev) ==
   /\ AllTrue(TrainStepGuards(ev))
   /\ version' = version + 1
